@@ -201,9 +201,11 @@ def run_translator(ck):
            "map (fun l => let '(f, fn, v, _) := l in (fn, v)) (filter (fun l => let '(_, _, v, _) := l in negb (String.eqb v \"lockstep\")) gen_on_entries_lockstep)).\nPrint LKS.\n"
            "Definition FPM := Eval vm_compute in (frame_progs_eqb gen_frame_progs frame_progs_model && forallb frame_ok gen_frame_progs, "
            "map fp_name (filter (fun p => negb (frame_ok p)) gen_frame_progs)).\nPrint FPM.\n"
-           "Definition LSW := Eval vm_compute in (ce_all_limited gen_content_encodings gen_ce_body_wraps, gen_ce_body_wraps).\nPrint LSW.\n")
-    txt = txt.replace("model.IngestPipe gen.GenGoroutinesWriter", "model.IngestPipe model.IngestFraming gen.GenGoroutinesWriter")
-    ok, out = ck.coq_make(["model/IngestRobust.vo", "model/IngestPipe.vo", "model/IngestFraming.vo", "gen/GenGoroutinesWriter.vo"])
+           "Definition LSW := Eval vm_compute in (ce_all_limited gen_content_encodings gen_ce_body_wraps, gen_ce_body_wraps).\nPrint LSW.\n"
+           "Definition DPM := Eval vm_compute in (dprog_eqb gen_prom_decode_prog prom_prog, dprog_eqb gen_lokiproto_decode_prog lokiproto_prog).\nPrint DPM.\n"
+           "Definition DFP := Eval vm_compute in (failing_probes gen_prom_decode_prog, failing_probes gen_lokiproto_decode_prog).\nPrint DFP.\n")
+    txt = txt.replace("model.IngestPipe gen.GenGoroutinesWriter", "model.IngestPipe model.IngestFraming model.IngestShared gen.GenGoroutinesWriter")
+    ok, out = ck.coq_make(["model/IngestRobust.vo", "model/IngestPipe.vo", "model/IngestFraming.vo", "model/IngestShared.vo", "gen/GenGoroutinesWriter.vo"])
     if not ok:
         ck.obligation("generated file compiles", False, out[-1500:])
         return False
@@ -282,6 +284,17 @@ def run_translator(ck):
     ck.obligation("the bufio.Scanner loops of the Cloudflare, Elasticsearch-bulk and Zipkin-NDJSON decoders split at lines, allow 16 MiB tokens, return on every line-handler "
                   "error, look at scanner.Err() and wrap it in NewUnmarshalError (framing_loops_match_source)", val("FPM").startswith("(true"),
                   "(ok, loops that can drop lines silently) = " + val("FPM"))
+    ck.obligation("the loops of promMetricsProtoDec.Decode and logsProtoDec.Decode, regenerated as programs over slice lengths, are the modelled programs "
+                  "(decoder_loops_match_source; remote_write_decoder_keeps_the_contract is about them)", val("DPM").replace(" ", "") == "(true,true)",
+                  "(remote write, Loki protobuf) = %s (see coq/gen/GenGoroutinesWriter.v, gen_prom_decode_prog / gen_lokiproto_decode_prog)" % val("DPM"))
+    dfp = val("DFP").replace("%N", "")
+    probes = parse_probes(dfp)
+    if dfp.replace(" ", "") != "([],[])" and probes in (None, ([], [])):
+        probes = None    # not parsed: the obligation fails, nothing is replayed
+    ck.obligation("the regenerated decoder loops, run by the model's interpreter on probe bodies around the 1000-point hand-over, never panic, hand over four slices of "
+                  "one length at every onEntries call and every sample exactly once", probes == ([], []),
+                  "bodies (k series x n samples) on which the regenerated loop breaks the contract, (remote write, Loki protobuf): " + dfp)
+    ck.failing_probe_shapes = probes
     ck.extra["handler_side_panic_sites"] = val("NSI")
     ck.extra["index_slice_assert_sites_in_package_unmarshal_(all;_those_not_handler-side_run_below_Decode_under_tamePanic)"] = val("NST")
     ck.extra["goroutines_in_writer"] = val("NG")
@@ -292,6 +305,31 @@ def run_translator(ck):
     except (OSError, ValueError, KeyError):
         ck.obligation("phrase list written by the translator", False, PHRASES)
     return True
+
+
+def parse_probes(txt):
+    """(failing_probes prom, failing_probes lokiproto) as printed by Coq -> two lists of shapes [[k, n], ..]"""
+    def shapes(t):
+        out = []
+        for sh in re.findall(r"\[((?:\s*\(\s*\d+\s*,\s*\d+\s*\)\s*;?)+)\]", t):
+            out.append([[int(a), int(b)] for a, b in re.findall(r"\(\s*(\d+)\s*,\s*(\d+)\s*\)", sh)])
+        return out
+    t = txt.strip()
+    if not (t.startswith("(") and t.endswith(")")):
+        return None
+    # split at the comma between the two top-level lists
+    depth, cut = 0, -1
+    for i, ch in enumerate(t[1:-1]):
+        if ch == "[":
+            depth += 1
+        elif ch == "]":
+            depth -= 1
+        elif ch == "," and depth == 0:
+            cut = i + 1
+            break
+    if cut < 0:
+        return None
+    return shapes(t[1:cut]), shapes(t[cut + 1:-1])
 
 
 def nontrivial(c):
@@ -813,6 +851,169 @@ def run_pipe(ck):
     ck.add_samples([{"class": c["class"], "events": c["events"][:4], "obs": c["obs"]} for c in cases if "short-vals" in c["class"]][:1])
 
 
+CKIND = {"prom": "CProm", "lokiproto": "CLokiProto", "lokijson": "CLokiJson", "ddmetrics": "CDdMetrics"}
+SHTABLE = {"samples_v3": 3, "time_series": 4}
+SHARED_CORPUS = os.path.join(HERE, "corpus", "C05", "shared.jsonl")
+
+
+def status_outcome(st):
+    if st == 0:
+        return "OHang"
+    if st < 0:
+        return "OAbort"
+    return {2: "O2xx", 4: "O4xx", 5: "O5xx"}.get(st // 100, "OOther")
+
+
+def shcase_to_coq(c):
+    def client(x):
+        return "{| cl_kind := %s; cl_shape := %s; cl_bad := %s |}" % (
+            CKIND[x["kind"]], coq_list(["(%d%%N, %d%%N)" % (k, n) for k, n in x["shape"]]), b(bool(x.get("bad"))))
+    o = c["obs"]
+    blocks = ["(%d, %s, %s)" % (SHTABLE.get(x["table"], 9), b(x["refused"]), coq_list(["%d%%N" % n for n in x["cols"]])) for x in (o.get("blocks") or [])]
+    return ("{| sh_id := %d; sh_a := %s; sh_b := %s; sh_a_is_loki := %s; sh_obs := {| so_a := %s; so_b := %s; so_blocks := %s; so_a_lines := %d%%N |} |}" % (
+        c["id"], client(c["a"]), client(c["b"]), b(c["a"]["kind"] in ("lokijson", "lokiproto")), status_outcome(o["a_status"]), status_outcome(o["b_status"]),
+        coq_list(blocks), o.get("a_lines_stored", 0)))
+
+
+def run_shared(ck):
+    """two clients whose rows land in ONE batch of the real insert services (harness sharedbatch): client A sends a small well-formed push,
+    client B a request of a chosen shape; the back-end is ch-go's own block encoder.  Compared with sh_expected (regenerated decoder loops ->
+    regenerated onEntries at column level -> the shared batch of model/IngestShared.v); oracle sh_spec_ok: no request makes another
+    client's well-formed push fail."""
+    rp = json.load(open(ck.replay)) if ck.replay else {}
+    if ck.replay and "shared_case" not in rp:
+        return
+    if not ck.go_build("sharedbatch"):
+        ck.obligation("harness sharedbatch builds against the repository", False, ck.build_out[-1500:])
+        return
+    runs = []
+    if ck.replay:
+        p = os.path.join(ck.work, "shared_replay_in.jsonl")
+        open(p, "w").write(json.dumps(rp["shared_case"]) + "\n")
+        runs.append(("replay", ["--cases", p]))
+    else:
+        if os.path.exists(SHARED_CORPUS):
+            runs.append(("corpus", ["--cases", SHARED_CORPUS]))
+        probes = getattr(ck, "failing_probe_shapes", None) or ([], [])
+        extra = [("prom", sh) for sh in probes[0]] + [("lokiproto", sh) for sh in probes[1]]
+        if extra:
+            # bodies on which the model's interpreter says the regenerated decoder loop breaks its contract: run them against the real code
+            p = os.path.join(ck.work, "shared_probes_in.jsonl")
+            with open(p, "w") as f:
+                for i, (kind, sh) in enumerate(extra):
+                    f.write(json.dumps({"id": 5000000 + i, "class": kind + "/failing-probe-of-the-regenerated-loop/a-first",
+                                        "a": {"kind": "lokijson", "shape": [[1, 1]]}, "b": {"kind": kind, "shape": sh}, "order": "a-first"}) + "\n")
+            runs.append(("probes", ["--cases", p]))
+        runs.append(("gen", ["--seed", ck.seed, "--n", ck.n(90, 2500)]))
+    cases = []
+    for tag, args in runs:
+        outp = os.path.join(ck.work, "shared_%s.jsonl" % tag)
+        rc, out = ck.go_run("sharedbatch", args + ["--out", outp], timeout=3000)
+        lines = load(outp) if os.path.exists(outp) else []
+        got = [c for c in lines if "obs" in c]
+        begun = [c["begin"] for c in lines if "begin" in c]
+        if tag == "corpus":
+            for c in got:
+                c["id"] += 4000000
+        cases += got
+        if rc != 0:
+            done = set(c["id"] for c in got)
+            last = [i for i in begun if i not in done and i + 4000000 not in done]
+            ck.obligation("harness sharedbatch ran to the end (%s)" % tag, False, "exit %d; case in progress: %s; stderr tail: %s" % (rc, last[-1:] or "?", out[-1200:]))
+            if last:
+                gp = os.path.join(ck.work, "shared_regen.jsonl")
+                ck.go_run("sharedbatch", args + ["--gen-only", "--out", gp], timeout=300)
+                script = [c for c in (load(gp) if os.path.exists(gp) else []) if c.get("id") == last[-1]]
+                ck.violation({"property": "C05", "kind": "the process died while two clients shared a batch (un-recovered panic in a goroutine)",
+                              "shared_case": {k: script[0][k] for k in ("id", "class", "a", "b", "order")} if script else {"id": last[-1]},
+                              "stderr": out[-2500:], "replay": "bin/check C05 --replay <this file>   (or: sharedbatch --cases <file with the shared_case line>)"})
+            return
+    if not cases:
+        return
+    mism, viol = [], []
+    shard = 400
+    for k in range(0, len(cases), shard):
+        part = cases[k:k + shard]
+        txt = ("From Coq Require Import List String Ascii ZArith NArith Bool.\n"
+               "From Qryn Require Import model.IngestRobust model.IngestPipe model.IngestShared gen.GenGoroutinesWriter.\n"
+               "Import ListNotations.\nOpen Scope Z_scope.\n"
+               "Definition shcases : list shcase := [\n  " + ";\n  ".join(shcase_to_coq(c) for c in part) + "].\n"
+               "Definition M := Eval vm_compute in sh_mismatches gen_on_entries_cols gen_spl_fields gen_tsd_fields gen_prom_decode_prog gen_lokiproto_decode_prog shcases.\nPrint M.\n"
+               "Definition V := Eval vm_compute in sh_spec_violations shcases.\nPrint V.\n")
+        rc, out = ck.coq_eval("C05_shared_%d" % (k // shard), txt)
+        flat = " ".join(out.split())
+        m = re.search(r"M = \[(.*?)\]\s*: list Z", flat)
+        v = re.search(r"V = \[(.*?)\]\s*: list Z", flat)
+        if rc != 0 or not m or not v:
+            ck.obligation("sharedbatch cases evaluated inside Coq", False, out[-1500:])
+            return
+        mism += [int(x) for x in re.findall(r"-?\d+", m.group(1))]
+        viol += [int(x) for x in re.findall(r"-?\d+", v.group(1))]
+    byid = {c["id"]: c for c in cases}
+    ck.obligation("shared batch correspondence: on %d pairs of concurrent requests the real router / decoders / onEntries / InsertServiceV2 over ch-go's block encoder give "
+                  "both clients the status class and the blocks the column totals that the model computes from the regenerated decoder loops and the regenerated onEntries" % len(cases),
+                  not mism, "mismatching sharedbatch case ids: %s" % mism[:10])
+    ck.obligation("shared batch oracle: no request makes another client's well-formed push fail -- every well-formed push is acknowledged and all its rows are stored whatever "
+                  "the client sharing the batch sent, a refused body is not acknowledged, no INSERT block is refused by the block encoder",
+                  not viol, "violating sharedbatch case ids: %s" % viol[:10])
+
+    def size(c):
+        return sum(k * max(n, 1) for k, n in c["b"]["shape"]) + sum(k * max(n, 1) for k, n in c["a"]["shape"])
+    if viol:
+        w = min((byid[i] for i in viol), key=size)
+        o = w["obs"]
+        refused = [x for x in o.get("blocks") or [] if x.get("refused")]
+        ck.violation({"property": "C05", "kind": "a client's well-formed push fails / loses rows because of the request that shares its insert batch: client A answered %s, client B answered %s%s" % (
+            o["a_status"], o["b_status"], ("; INSERT refused: " + refused[0].get("err", "")) if refused else ""),
+            "shared_case": {k: w[k] for k in ("id", "class", "a", "b", "order")}, "observed": o, "others": [i for i in viol if i != w["id"]][:20],
+            "explanation": "sh_spec_ok (model/IngestShared.v): client A sends a small well-formed push; client B's request (kind, shape = [[k series, n samples each], ..]) "
+                           "lands in the same batch of the samples / time-series insert service; the block goes through ch-go's proto.Block.EncodeBlock",
+            "replay": "bin/check C05 --replay <this file>   (or: sharedbatch --cases <file with the shared_case line>)"})
+    elif mism:
+        w = min((byid[i] for i in mism), key=size)
+        ck.violation({"property": "C05", "kind": "shared batch: model and implementation disagree on a status class or on the column totals of the blocks",
+                      "shared_case": {k: w[k] for k in ("id", "class", "a", "b", "order")}, "observed": w["obs"], "others": [i for i in mism if i != w["id"]][:20],
+                      "broken": "correspondence IngestShared.sh_expected vs decoders / onEntries / InsertServiceV2", "replay": "bin/check C05 --replay <this file>"})
+    hist, kinds = {}, {}
+    distinct = set()
+    for c in cases:
+        k = c["class"].split("/")[1] if "/" in c["class"] else c["class"]
+        hist[k] = hist.get(k, 0) + 1
+        kinds[c["b"]["kind"]] = kinds.get(c["b"]["kind"], 0) + 1
+        distinct.add(hashlib.sha1(json.dumps([c["a"], c["b"], c["order"]], sort_keys=True).encode()).hexdigest())
+    ck.coverage["evaluations"] += len(cases)
+    ck.coverage["distinct_nontrivial"] += len(distinct)
+    ck.coverage["rule"] += ("shared: pairs (client A: small well-formed Loki / remote-write push; client B: remote write, Loki protobuf, Loki JSON or Datadog series of a chosen "
+                            "shape around the 1000-point hand-over, the 1 MiB flush, empty series, or a refused body) flushed as one batch; every pair non-trivial, distinct by sha1. ")
+    ck.extra["sharedbatch_distribution"] = {
+        "shapes": dict(sorted(hist.items())), "client_B_kinds": dict(sorted(kinds.items())),
+        "order": {o: sum(1 for c in cases if c["order"] == o) for o in ("a-first", "b-first", "concurrent")},
+        "hand-over_falls_strictly_inside_a_series": sum(1 for c in cases if c["b"]["kind"] == "prom" and not c["b"].get("bad") and crosses(c["b"]["shape"])),
+        "client_B_refused_body": sum(1 for c in cases if c["b"].get("bad")),
+        "samples_requests_of_one_HTTP_request_gt_1_(over_1_MiB)": sum(1 for c in cases if c["obs"].get("spl_requests", 0) > 2),
+        "rows_stored": sum(x["cols"][0] for c in cases for x in (c["obs"].get("blocks") or []) if not x["refused"] and x["table"] == "samples_v3"),
+        "blocks_refused": sum(1 for c in cases for x in (c["obs"].get("blocks") or []) if x["refused"])}
+    ck.add_samples([{"class": c["class"], "a": c["a"], "b": c["b"], "order": c["order"], "obs": {k: c["obs"].get(k) for k in ("a_status", "b_status", "blocks", "a_lines_stored")}}
+                    for c in cases if c["b"]["kind"] == "prom" and crosses(c["b"]["shape"])][:1])
+
+
+def crosses(shape):
+    """the 1000-point hand-over of the remote-write decoder falls strictly inside a series"""
+    points = 0
+    for k, n in shape:
+        for _ in range(k):
+            left = n
+            while left > 0:
+                take = min(left, 1000 - points)
+                points += take
+                left -= take
+                if points >= 1000:
+                    points = 0
+                    if left > 0:
+                        return True
+    return False
+
+
 def run(ck):
     ck.trusted += [
         "C05: third-party wire decoders (go-faster/jx, google.golang.org/protobuf, google/pprof, golang/snappy, compress/gzip, mime/multipart, "
@@ -829,19 +1030,43 @@ def run(ck):
         "and compared on every run",
         "C05 (model/IngestFraming.v): compress/gzip and golang/snappy readers below helpers.LimitDecoded are ORACLES (any chunking, any error at any point); "
         "io.ReadAll's loop (read until an error, EOF = success) as read",
+        "C05 (model/IngestShared.v): InsertServiceV2's Request / swapBuffers / fetchLoopIteration as read (one mutex, columns and waiting promises swapped together, "
+        "every waiting promise gets the verdict of client.Do); ch-go proto.Block.EncodeRawBlock refuses a block iff a column's row count differs from the first column's "
+        "(the harness sharedbatch runs the real encoder); the decoder programs keep only the statements that change slice lengths / counters (translate/goroutines_writer_src/decoders.go); "
+        "x[:len(y)] is treated as a panic when len(y) > len(x) although Go allows up to cap(x); the Loki JSON and Datadog series decoders (jx callbacks) still rest on the syntactic lockstep verdict",
     ]
     okgen = run_translator(ck)
+    # run_translator has built the .vo files the case evaluations load (models + gen); the two compilations of props/C05.v
+    # (build, then afresh for the Print Assumptions output: ~18 s each) run beside the harnesses
+    import threading
+    props_thread = None
     if okgen:
-        ck.coq_props()
+        def props_job():
+            try:
+                ck.coq_props()
+            except Exception as e:      # an exception in a thread would otherwise only be printed
+                ck.obligation("props/C05.v compiled and the assumptions of its theorems were read", False, repr(e))
+        props_thread = threading.Thread(target=props_job)
+        props_thread.start()
     else:
         ck.theorems = []
+    try:
+        run_streams(ck)
+    finally:
+        if props_thread is not None:
+            props_thread.join()
+
+
+def run_streams(ck):
     rp = json.load(open(ck.replay)) if ck.replay else {}
-    if not ("pipe_case" in rp or "limread_case" in rp):
+    if not ("pipe_case" in rp or "limread_case" in rp or "shared_case" in rp):
         run_harness(ck)
         if not ck.replay:
             run_stall(ck)
-    if "limread_case" not in rp:
+    if "limread_case" not in rp and "shared_case" not in rp:
         run_pipe(ck)
-    run_limread(ck)
+    run_shared(ck)
+    if "shared_case" not in rp:
+        run_limread(ck)
     for fid, what in ck.known_findings().items():
         pass  # no open finding for C05: defects 8 and 9 are fixed (findings.d/C05.txt)
